@@ -11,7 +11,7 @@ import itertools
 
 import numpy as np
 
-from .. import gen
+from .. import gen, readers
 from ..ctx import close, maxrel
 from . import C01
 
@@ -31,7 +31,7 @@ ASSUMPTIONS = [
 NOT_REACHED = ["lists longer than 530 (and between 13 and 269)", "diffuse_field / psd (one pooled curve; see C17)"]
 BUDGET = {"quick": dict(cases=500, seconds=70, shards=4),
           "thorough": dict(cases=40000, seconds=600, shards=16)}
-REQUIRED = ["mon:row-equals-single-run", "mon:row-count-and-order", "mon:frequency-equals-fcs",
+REQUIRED = ["mon:rows-unchanged-by-reading", "mon:row-equals-single-run", "mon:row-count-and-order", "mon:frequency-equals-fcs",
             "mon:finite-nonnegative", "mon:nyquist-refusal", "mon:permutation-consistent"]
 
 POLICIES = ["frequency_domain_resampling", "keeping_smallest_time_step", "keeping_majority_time_step"]
@@ -102,8 +102,23 @@ def process_list(ctx, items, cfg):
     except Exception as e:
         return None, e, st
     if cfg["kind"] == "azimuthal":
-        return [np.asarray(h.amplitude) for h in res.hvsrs], res, st
-    return [np.atleast_2d(np.asarray(res.amplitude))], res, st
+        curves = [np.array(h.amplitude) for h in res.hvsrs]
+    else:
+        curves = [np.atleast_2d(np.array(res.amplitude))]
+    # -- the rows stay what process() returned while the result is read (statistics, peak vectors) and what was
+    #    handed out is edited by the caller
+    if curves[0].shape[0] <= 60:
+        dist = str(np.random.default_rng(curves[0].shape).choice(["lognormal", "normal"]))
+        changed, second, edited = readers.read_then_scribble(res, dist, rng=True)
+        ctx.count("arrays_handed_out_by_results_and_edited", edited)
+        now = [np.asarray(h.amplitude) for h in res.hvsrs] if cfg["kind"] == "azimuthal" else [np.atleast_2d(np.asarray(res.amplitude))]
+        same = all(a.shape == b.shape and bool(np.all(a == b)) for a, b in zip(curves, now))
+        ctx.check(same and not changed and not second, "rows-unchanged-by-reading",
+                  "after reading statistics / peak vectors of the result and editing the returned arrays, the result no "
+                  "longer holds the curves process() computed (or answers differently)", mechanism="returned-array-shares-memory-with-result",
+                  rows=int(curves[0].shape[0]), distribution=dist, state_changed=changed[:4], second_answer_differs=second[:4],
+                  method=cfg.get("method"), kind=cfg["kind"])
+    return curves, res, st
 
 
 def fam_list(ctx, rng):
